@@ -10,6 +10,7 @@ CONSTANTS
   RenderFails = FALSE
   CacheMisses = TRUE
   VerBumps = TRUE
+  Forges = TRUE
   FailKinds = {"fnerror1", "fnerror2", "fatal1", "fatal2", "reqloop1", "reqloop2", "reqlabel1", "reqlabel2"}
 VIEW view
 ACTION_CONSTRAINT Emit
